@@ -177,7 +177,8 @@ impl<'a, 'b> ElemGen<'a, 'b> {
             0 | 1 => EFields::Unit,
             _ => self.fields(rng, field_reader, mistakes),
         };
-        let disc = if matches!(fields, EFields::Unit) && rng.chance(1, 3) { Some((*rng.pick(&["4", "1 + 2", "0x10", "FOO as isize"])).to_string()) } else { None };
+        // (a variant of any shape may carry an explicit discriminant: `B(u8) = 4`, `C { x: u8 } = 7`)
+        let disc = if rng.chance(1, 3) { Some((*rng.pick(&["4", "1 + 2", "0x10", "FOO as isize"])).to_string()) } else { None };
         EVariant {
             attrs: self.attrs_for(rng, reader, mistakes),
             name: format!("{}{k}", rng.pick(&["Alpha", "Beta", "Gamma", "Var"])),
